@@ -69,8 +69,11 @@ to its division-free characterisation (`roundShift_isRounded`).
   the correctly rounded `roundShift (modeOf mode) v k` (the same spec function as above), reduced into
   the destination representation; no bias can overflow, no representability hypothesis in the common
   type is needed (`wrapped_quotient_fits`).  Only hypothesis: `2^k` is representable in the promoted
-  representation type (`k < (promote S).digits`), which is necessary:
-  `wrapped_narrowing_power_refuted` (`1 << 31` is `INT_MIN`; the instantiation compiles).
+  representation type (`k < (promote S).digits`), which is exactly "the instantiation compiles"
+  (`wrapped_narrowing_wellformed_iff`: `default_scale<-k>` asserts `0 < divisor` on the `constexpr`
+  divisor since the repair of `C09.wrapped_power_is_int_min`).  As found (`RoundWrap.convertOrig`) the
+  excluded instantiation compiled and divided by `1 << 31 = INT_MIN`: `wrapped_narrowing_power_refuted`;
+  where both are well-formed the two agree (`wrapped_narrowing_unchanged_where_wellformed`).
 * `wrapped_narrowing_representable`, `wrapped_narrowing_isRounded`, `wrapped_narrowing_roundDiv` —
   the value itself when it fits the destination; the division-free characterisation; the C08 form.
 * `wrapped_widening_exact`, `wrapped_widening_ub_iff`, `wrapped_widening_unsigned_wraps` —
@@ -498,8 +501,9 @@ behaviour and returns `v / 2^k` rounded as the tag prescribes, converted to the 
 representation type.  The hypothesis `k < (promote S).digits` says that the divisor
 `power_value<rounding_integer<S, Tag>, k, 2>() = decltype(s >> …){1} << constant<k>`, whose
 representation type is the (doubly, idempotently) promoted `S`, holds `2^k`; it is what the
-`static_assert` of `power_value` enforces for built-in operands (for a `rounding_integer` operand the
-assertion is vacuous — see `wrapped_narrowing_power_refuted`).  Unsigned sources need nothing more: the
+`static_assert` of `power_value` enforces for built-in operands and the `static_assert(0 < divisor)` of
+`default_scale<-k>` for a `rounding_integer` operand (`wrapped_narrowing_wellformed_iff`: the hypothesis is
+exactly "the instantiation compiles").  Unsigned sources need nothing more: the
 usual arithmetic conversions of `S` against `promote S` yield `promote S`, which holds `v` and `2^k`. -/
 theorem wrapped_narrowing_correct (mode : RdMode) (S D : IntTy) (hS : 1 ≤ S.bits) (eS eD : Int) (v : Int)
     (h : eS < eD) (hk : (eD - eS).toNat < (promote S).digits) (hv : S.InRange v) :
@@ -531,15 +535,50 @@ theorem wrapped_narrowing_roundDiv (mode : RdMode) (S D : IntTy) (hS : 1 ≤ S.b
   rw [← Spec.roundShift_eq_roundDiv] at hfit ⊢
   exact wrapped_narrowing_representable mode S D hS hD eS eD v h hk hv hfit
 
-/-- the hypothesis on `k` is necessary, and the excluded instantiation compiles: with `k = 31` on
-`int` the divisor `1 << 31` is `INT_MIN`, and `(2^31 − 1)·2^-31 ≈ 1` converts to `-1`
-(`scaled_integer<rounding_integer<int, nearest>, power<-31>>` → `power<0>`; the real code returns the
-same).  Class `C09.wrapped_power_is_int_min` (reported; outside the correspondence grid). -/
+/-- the hypothesis on `k` is exactly well-formedness: the narrowing conversion compiles (is not `.ill`)
+if and only if `2^k` is representable in the promoted representation type.  Otherwise the `constexpr`
+divisor `decltype(s >> …){1} << constant<k>` is not a constant expression (`k ≥` the width) or is the most
+negative number (`k` = the digits of a signed type), which `static_assert(0 < divisor)` rejects. -/
+theorem wrapped_narrowing_wellformed_iff (mode : RdMode) (S D : IntTy) (hS : 1 ≤ S.bits) (eS eD : Int) (v : Int)
+    (h : eS < eD) (hv : S.InRange v) :
+    (∃ r, RoundWrap.convert mode S eS D eD v = .ok r) ↔ (eD - eS).toNat < (promote S).digits := by
+  constructor
+  · intro ⟨r, hr⟩
+    apply Decidable.byContradiction; intro hk
+    obtain ⟨m, hm⟩ := RoundWrap.narrowing_ill mode S D eS eD v h hk
+    rw [hm] at hr; cases hr
+  · intro hk; exact ⟨_, wrapped_narrowing_correct mode S D hS eS eD v h hk hv⟩
+
+/-- … and outside it the instantiation is ill-formed (for every value: a compile-time fact) -/
+theorem wrapped_narrowing_ill (mode : RdMode) (S D : IntTy) (eS eD : Int) (v : Int)
+    (h : eS < eD) (hk : ¬ (eD - eS).toNat < (promote S).digits) :
+    ∃ m, RoundWrap.convert mode S eS D eD v = .ill m :=
+  RoundWrap.narrowing_ill mode S D eS eD v h hk
+
+/-- the repair changed nothing where the conversion was well-formed before -/
+theorem wrapped_narrowing_unchanged_where_wellformed (mode : RdMode) (S D : IntTy) (eS eD : Int) (v : Int)
+    (h : eS < eD) (hk : (eD - eS).toNat < (promote S).digits) :
+    RoundWrap.convertOrig mode S eS D eD v = RoundWrap.convert mode S eS D eD v :=
+  RoundWrap.narrowing_orig_eq mode S D eS eD v h hk
+
+/-- repaired finding `C09.wrapped_power_is_int_min`: **as found** (`RoundWrap.convertOrig`) the excluded
+instantiation compiled: with `k = 31` on `int` the divisor `1 << 31` is `INT_MIN`, and
+`(2^31 − 1)·2^-31 ≈ 1` converted to `-1`
+(`scaled_integer<rounding_integer<int, nearest>, power<-31>>` → `power<0>`; the real code returned the
+same).  The repaired conversion is ill-formed there. -/
 theorem wrapped_narrowing_power_refuted :
-    RoundWrap.convert .nrst i32 (-31) i32 0 2147483647 = .ok (i32, -1)
+    RoundWrap.convertOrig .nrst i32 (-31) i32 0 2147483647 = .ok (i32, -1)
       ∧ roundShift .nearestAway 2147483647 31 = 1 ∧ i32.InRange 1 ∧ i32.InRange 2147483647
       ∧ ¬ (31 < (promote i32).digits)
-      ∧ cBin .shl (promote (promote i32), 1) (i32, 31) = .ok (i32, -2147483648) := by decide +kernel
+      ∧ cBin .shl (promote (promote i32), 1) (i32, 31) = .ok (i32, -2147483648)
+      ∧ RoundWrap.convert .nrst i32 (-31) i32 0 2147483647
+          = .ill "scale: attempted operation will result in overflow" := by decide +kernel
+
+-- non-vacuity: both sides of the equivalence occur (k = 30 compiles, k = 31 and k = 32 do not)
+example : RoundWrap.convert .nrst i32 (-30) i32 0 2147483647 = .ok (i32, 2)
+    ∧ RoundWrap.convert .ninf i64 (-63) i64 0 (-5) = .ill "scale: attempted operation will result in overflow"
+    ∧ RoundWrap.convert .tpi u32 (-32) u32 0 7 = .ill "scale: the divisor is not a constant expression"
+    ∧ RoundWrap.convert .tpi u32 (-31) u32 0 4294967295 = .ok (u32, 2) := by decide +kernel
 
 -- the input a seeded defect got wrong: 0xFFFFFFF8 / 16 = 268435455.5, ties toward +∞ in `unsigned`
 example : RoundWrap.convert .tpi u32 (-4) u32 0 0xFFFFFFF8 = .ok (u32, 0x10000000) := by decide +kernel
